@@ -9,6 +9,7 @@ use crate::rt::Ledger;
 use crate::sim::{Coverage, Landed, Monitor, Violation};
 use crate::world::{token_amount, transfer_fee_params};
 use crate::wpix;
+use num_traits::ToPrimitive;
 use orca_whirlpools_core as sdk;
 use serde_json::json;
 use solana_program::pubkey::Pubkey;
@@ -338,6 +339,64 @@ impl Monitor for C20 {
                                 }
                             }
                             _ => out.push(viol("sdk_fails_where_program_succeeds", ev.idx, format!("decrease_liquidity_quote failed for L={} on {}..{}", liq, pos.lower, pos.upper))),
+                        }
+                    }
+                    // boundary probes at the reached prices: liquidity magnitudes around the u64 / 192-bit / 256-bit limits of the
+                    // intermediate products. The SDK must return the program's value, and an error wherever the program
+                    // rejects the amount as overflowing.
+                    if ev.salt % 3 == 0 {
+                        let (pl, pu) = (crate::model::sqrt_price_of_tick(pos.lower), crate::model::sqrt_price_of_tick(pos.upper));
+                        let diff = pu - pl;
+                        let mut ls: Vec<u128> = vec![liq, u128::MAX, u128::MAX / 2, 1u128 << 100, 1u128 << 112, 1u128 << 127];
+                        // L * diff just below / above 2^192 (so that "<< 64" just fits / just overflows 256 bits)
+                        let lim = num_bigint::BigUint::from(1u8) << 192usize;
+                        if let Some(l192) = (lim / num_bigint::BigUint::from(diff.max(1))).to_u128() {
+                            ls.extend_from_slice(&[l192.saturating_sub(1), l192, l192.saturating_add(1)]);
+                        }
+                        for l in ls {
+                            if l == 0 {
+                                continue;
+                            }
+                            for up in [true, false] {
+                                cov.probe("boundary_amount_delta_probes");
+                                let pa = whirlpool::math::get_amount_delta_a(pl, pu, l, up);
+                                let pb = whirlpool::math::get_amount_delta_b(pl, pu, l, up);
+                                let sa = std::panic::catch_unwind(|| sdk::try_get_amount_delta_a(pl, pu, l, up));
+                                let sb = std::panic::catch_unwind(|| sdk::try_get_amount_delta_b(pl, pu, l, up));
+                                for (side, pv, sv) in [("A", pa.ok(), sa), ("B", pb.ok(), sb)] {
+                                    let svv = match sv {
+                                        Ok(Ok(x)) => Some(x),
+                                        Ok(Err(_)) => None,
+                                        Err(_) => {
+                                            out.push(viol("sdk_panics", ev.idx, format!("SDK amount delta {} panics for L={} between ticks {}..{}", side, l, pos.lower, pos.upper)));
+                                            continue;
+                                        }
+                                    };
+                                    cov.eval(format!("amount_delta_boundary|{}|program_ok={}|sdk_ok={}", side, pv.is_some(), svv.is_some()));
+                                    if pv != svv {
+                                        out.push(viol("sdk_amount_delta_differs", ev.idx, format!("token {} amount for L={} between ticks {}..{} (round_up={}): program {:?}, SDK {:?}", side, l, pos.lower, pos.upper, up, pv, svv)));
+                                    }
+                                }
+                            }
+                        }
+                        // next sqrt price from an amount of token A / B at the pool's price, liquidity at the same magnitudes
+                        for l in [pool.liquidity.max(1), 1u128 << 100, 1u128 << 127, u128::MAX] {
+                            for amount in [1u64, 1_000_000, u64::MAX] {
+                                for inp in [true, false] {
+                                    cov.probe("boundary_next_price_probes");
+                                    let pa = whirlpool::math::get_next_sqrt_price_from_a_round_up(pool.sqrt_price, l, amount, inp).ok();
+                                    let pb = whirlpool::math::get_next_sqrt_price_from_b_round_down(pool.sqrt_price, l, amount, inp).ok();
+                                    let sa = std::panic::catch_unwind(|| sdk::try_get_next_sqrt_price_from_a(pool.sqrt_price, l, amount, inp)).ok().and_then(|r| r.ok());
+                                    let sb = std::panic::catch_unwind(|| sdk::try_get_next_sqrt_price_from_b(pool.sqrt_price, l, amount, inp)).ok().and_then(|r| r.ok());
+                                    // the SDK additionally refuses prices outside the protocol bounds; the program checks that later in the swap step
+                                    let inb = |x: Option<u128>| x.filter(|v| (decode::MIN_SQRT_PRICE..=decode::MAX_SQRT_PRICE).contains(v));
+                                    for (side, pv, sv) in [("A", inb(pa), sa), ("B", inb(pb), sb)] {
+                                        if pv != sv {
+                                            out.push(viol("sdk_next_price_differs", ev.idx, format!("next sqrt price from {} of token {} at price {} L={} (input={}): program {:?}, SDK {:?}", amount, side, pool.sqrt_price, l, inp, pv, sv)));
+                                        }
+                                    }
+                                }
+                            }
                         }
                     }
                     // tick <-> price conversions on the values this history reached
